@@ -658,7 +658,7 @@ func init() {
 		m := m
 		reg("BridgeHook."+m, "the configured bridge hook may fail; it touches only channel-permission state (perm.admin), never ophost or bank state", func(c *CallCtx) []Outcome {
 			h := handleOf(c.args[1])
-			c.st.hookCalls = append(c.st.hookCalls, HookCall{Name: m, Bridge: c.t(2), Cfg: c.tv(3)})
+			c.st.hookCalls = append(c.st.hookCalls, HookCall{H: h, Name: m, Bridge: c.t(2), Cfg: c.tv(3)})
 			if c.st.hookCount == "" {
 				c.st.hookCount = "0"
 			}
